@@ -55,6 +55,22 @@ type PacketSpec struct {
 	Seq0  [8]uint16 // initial sequence number per media (chosen so that the run wraps)
 	TS0   [8]uint32 // initial timestamp per media
 	MaxPL int       // maximum payload length
+	// ArbSeq: sequence numbers are an arbitrary function of (k, id) - repeats, jumps and
+	// backward steps included (only meaningful on reliable transports)
+	ArbSeq bool
+}
+
+func (ps *PacketSpec) seq(k, id int) uint16 {
+	if !ps.ArbSeq {
+		return ps.Seq0[k] + uint16(id)
+	}
+	x := uint32(id)*2246822519 + uint32(k)*3266489917 + uint32(ps.Seq0[k])
+	x ^= x >> 15
+	x *= 2654435761
+	if id%5 == 0 { // a repeat of the previous number
+		return ps.seq(k, id-1)
+	}
+	return uint16(x >> 13)
 }
 
 // Make builds packet (k, id), k 1-based media index, id 1-based.
@@ -74,7 +90,7 @@ func (ps *PacketSpec) Make(k, id int, pt uint8) *rtp.Packet {
 			Version:        2,
 			PayloadType:    pt,
 			Marker:         id%3 == 0,
-			SequenceNumber: ps.Seq0[k] + uint16(id),
+			SequenceNumber: ps.seq(k, id),
 			Timestamp:      ps.TS0[k] + uint32(id)*3000,
 			SSRC:           0x1234ABCD,
 		},
